@@ -80,6 +80,7 @@ static Str pickName(Rng& r, const Features& f, const char* prefix, int idx, bool
         int n = (int)r.range(1, 3);
         for (int i = 0; i < n; i++) { s += bits[r.below(11)]; s += (char)('a' + r.below(26)); }   // (line breaks only in messages/prints, not names)
     }
+    if ((f.special_tc || f.special_xml) && r.chance(1, 10)) { size_t n = (size_t)r.range(60, 300); for (size_t i = 0; i < n; i++) s += (char)('a' + (i * 7 + n) % 26); }     // long stretches without any character that needs escaping
     return s;
 }
 
@@ -95,6 +96,7 @@ static Str textWithSpecials(Rng& r, const Features& f, const char* base) {
         int n = (int)r.range(1, 4);
         for (int i = 0; i < n; i++) { s += bits[r.below(13)]; s += (char)('a' + r.below(26)); }
     }
+    if ((f.special_tc || f.special_xml) && r.chance(1, 10)) { size_t n = (size_t)r.range(60, 300); for (size_t i = 0; i < n; i++) s += (char)('a' + (i * 5 + n) % 26); if (r.chance(1, 2)) s += "|'"; }
     return s;
 }
 
